@@ -47,12 +47,18 @@ PLANCB = ("planSucceeded", "planFailed")
 def cb_head(l):
     return "cb %d %s %s %s" % (l.inst, l.who, l.rec, l.meth)
 
-def fields(l, names, nopay=()):
+def strip_payload_keep_origin(t):
+    """o>d:p -> o>d ; '-' stays ; '-[o:p]' -> '-[o]' (the left-over origin of an invalid transition stays visible)"""
+    if t.startswith("-["): return "-[" + t[2:].split(":")[0] + "]"
+    if t.startswith("-"): return "-"
+    return t.split(":")[0]
+
+def fields(l, names, nopay=(), keep_origin=False):
     out = []
     for k in names:
         if k in l.f:
             v = l.f[k]
-            if k in nopay: v = strip_payload(v)
+            if k in nopay: v = strip_payload_keep_origin(v) if keep_origin else strip_payload(v)
             out.append(" %s=%s" % (k, v))
     return "".join(out)
 
@@ -101,7 +107,9 @@ def p_C05(l):
 
 def p_C06(l):
     if l.kind == "api": return api_line(l, False)
-    if l.kind == "cb": return cb_head(l) + fields(l, ["id", "act", "req", "cur", "pend", "ctx"], nopay=("req", "cur", "pend"))
+    # an invalid transition that still carries an origin ("-[o:p]": clear() resets the destination only) keeps that origin here: what a guard reads
+    # from currentTransition().origin before anything was accepted is part of the view
+    if l.kind == "cb": return cb_head(l) + fields(l, ["id", "act", "req", "cur", "pend", "ctx"], nopay=("req", "cur", "pend"), keep_origin=True)
     if l.kind == "did" and l.act[0] in ("change", "changeWith"): return "did %d change %s -> %s" % (l.inst, l.act[1], l.res)
     if l.kind == "obs": return "obs %d" % l.inst + fields(l, ["active", "act"])
     if l.kind == "ctxfail": return l.raw
